@@ -1,0 +1,60 @@
+//go:build verif
+
+// Contracts for package peer, checked by /verif/govc (see /verif/DESIGN.md).
+// This file contains only comments: it adds no code to any build.
+
+package peer
+
+//@ use streams
+//@ use net
+
+// NP: number of pieces of the torrent as the peer sees it.
+//@ spec NP(peer *Peer) int
+//@   body int((peer.Pieces.Length() + int64(peer.Pieces.PieceSize()) - 1) / int64(peer.Pieces.PieceSize()))
+
+// write: the ONE place where messages are handed to the wire. Its
+// precondition is the conformance condition of C11 for the message kinds whose
+// fields storrent computes: every caller under contract must establish it.
+//@ func write
+//@   trusted
+//@   requires peer != nil
+//@   requires [bitfield] typeis_[protocol.Bitfield](m) ==> len(as_[protocol.Bitfield](m).Bitfield) == (NP(peer)+7)/8
+//@   requires [request]  typeis_[protocol.Request](m) ==> int(as_[protocol.Request](m).Index) < NP(peer) && as_[protocol.Request](m).Begin%16384 == 0 && as_[protocol.Request](m).Length > 0 && as_[protocol.Request](m).Length <= 16384 &&
+//@            int64(as_[protocol.Request](m).Index)*int64(peer.Pieces.PieceSize()) + int64(as_[protocol.Request](m).Begin) + int64(as_[protocol.Request](m).Length) <= peer.Pieces.Length()
+//@   requires [have]     typeis_[protocol.Have](m) ==> int(as_[protocol.Have](m).Index) < NP(peer)
+//@   modifies peer.writeTime
+//@   props    C11
+
+// PG: the piece store the peer looks at has a consistent geometry.
+//@ spec PG(peer *Peer) bool
+//@   import "github.com/jech/storrent/tor/piece"
+//@   body peer.Pieces != nil && piece.GeomP(peer.Pieces) && (peer.Pieces.Length()+16383)/16384 <= 4294967295
+
+// Run: PARTIAL check -- only what it hands to write() (the initial Have /
+// Bitfield announcements) is checked, for a local bitmap of exactly
+// ceil(pieces/8) bytes as Pieces.Bitmap() produces.
+//@ func Run
+//@   requires peer != nil && PG(peer) && len(bitmap) == (NP(peer)+7)/8
+//@   modifies *
+//@   focus    pre:peer.write
+//@   props    C11
+
+// Block numbering: block c of the torrent is block c%cpp of piece c/cpp
+// (cpp = blocks per piece); its length is 16 KiB except for the last block of
+// the torrent.
+//@ func fromChunk
+//@   requires peer != nil && PG(peer)
+//@   ensures  [index] int($r0) == int(chunk) / (int(peer.Pieces.PieceSize())/16384)
+//@   ensures  [begin] int($r1) == (int(chunk) % (int(peer.Pieces.PieceSize())/16384)) * 16384
+//@   props    C11 C09
+
+//@ func toChunk
+//@   requires peer != nil && PG(peer) && int(begin) < int(peer.Pieces.PieceSize())
+//@   ensures  [spec] int(index)*(int(peer.Pieces.PieceSize())/16384) + int(begin)/16384 <= 4294967295 ==> int($r0) == int(index)*(int(peer.Pieces.PieceSize())/16384) + int(begin)/16384
+//@   props    C11 C09
+
+//@ func chunkSize
+//@   requires peer != nil && PG(peer)
+//@   ensures  [full] int64(chunk)*16384 + 16384 <= peer.Pieces.Length() ==> $r0 == 16384
+//@   ensures  [last] int64(chunk)*16384 < peer.Pieces.Length() && int64(chunk)*16384 + 16384 > peer.Pieces.Length() ==> int64($r0) == peer.Pieces.Length() - int64(chunk)*16384
+//@   props    C11 C09
